@@ -88,11 +88,12 @@ Qed.
 
 Theorem vb_base_total : forall e m, vb_base e m <> Panic.
 Proof.
-  intros e m. destruct m as [am|dm|pm|f t amt|g r u ex|g r u]; cbn [vb_base].
+  intros e m. destruct m as [am|dm|pm|f t amt|f t amt et|g r u ex|g r u]; cbn [vb_base].
   - apply vb_aol_total.
   - apply vb_did_total.
   - apply vb_pnft_total.
   - np_chain. destruct (coins_valid amt); discriminate.
+  - np_chain. destruct (negb (coins_valid amt)); [discriminate|]. destruct (et <=? 0)%Z; discriminate.
   - unfold err_invalid_address. destruct (e_unbech e g), (e_unbech e r); try discriminate.
     destruct (bytes_eqb _ _); discriminate.
   - unfold err_invalid_address. destruct (e_unbech e g), (e_unbech e r); try discriminate.
@@ -150,7 +151,7 @@ Ltac solve_signer :=
 
 Theorem signers_after_validation : forall e m, vb_base e m = Ok tt -> exists l, signers_base e m = Ok l.
 Proof.
-  intros e m H. destruct m as [am|dm|pm|f t amt|g r u ex|g r u]; cbn [vb_base] in H.
+  intros e m H. destruct m as [am|dm|pm|f t amt|f t amt et|g r u ex|g r u]; cbn [vb_base] in H.
   - destruct am as [t d o|t mo d w o|t w o|t k v w o f]; cbn [vb_aol] in H; cbn [signers_base];
       unfold vb_create_topic, vb_add_writer, vb_delete_writer, vb_add_record in H; inv_binds H.
     + solve_signer.
@@ -163,6 +164,7 @@ Proof.
   - destruct pm; cbn [vb_pnft] in H; cbn [signers_base];
       unfold vb_create_denom, vb_update_denom, vb_delete_denom, vb_transfer_denom, vb_mint_pnft,
         vb_transfer_pnft, vb_burn_pnft in H; inv_binds H; solve_signer.
+  - cbn [signers_base]. inv_binds H. solve_signer.
   - cbn [signers_base]. inv_binds H. solve_signer.
   - cbn [signers_base]. destruct (e_unbech e g) as [ga|] eqn:Eg; [|discriminate H]. solve_signer.
   - cbn [signers_base]. destruct (e_unbech e g) as [ga|] eqn:Eg; [|discriminate H]. solve_signer.
@@ -353,12 +355,15 @@ Qed.
 (** * every handler *)
 Theorem exec_base_total : forall e c m, env_ok e -> vb_base e m = Ok tt -> exec_base e c m <> Panic.
 Proof.
-  intros e c m He H. destruct m as [am|dm|pm|f t amt|g r u ex|g r u]; cbn [vb_base] in H; cbn [exec_base].
+  intros e c m He H. destruct m as [am|dm|pm|f t amt|f t amt et|g r u ex|g r u]; cbn [vb_base] in H; cbn [exec_base].
   - apply exec_aol_total; assumption.
   - apply exec_did_total; assumption.
   - apply exec_pnft_total.
   - unfold err_invalid_address. destruct (e_unbech e f), (e_unbech e t); try discriminate.
-    destruct (mem_bytes _ _); [discriminate|]. destruct (send _ _ _ _); discriminate.
+    destruct (mem_bytes _ _); [discriminate|]. destruct (send _ _ _ _ _); discriminate.
+  - unfold err_invalid_address. destruct (e_unbech e f), (e_unbech e t); try discriminate.
+    destruct (mem_bytes _ _); [discriminate|]. destruct (account_exists _ _); [discriminate|].
+    destruct (send _ _ _ _ _); discriminate.
   - unfold err_invalid_address. destruct (e_unbech e g), (e_unbech e r); try discriminate.
     destruct (match ex with Some t => _ | None => false end); discriminate.
   - unfold err_invalid_address. destruct (e_unbech e g), (e_unbech e r); try discriminate.
